@@ -34,6 +34,26 @@ def commandline_only(body, call):
     return False
 
 
+REL_FIELDS = ["blacklist", "overrides", "requires", "r_ifs", "r_ifs_all", "r_unless", "r_unless_all", "groups", "args", "conflicts"]
+
+
+def relation_setters_accumulate(fx, res, rule):
+    """Builder methods of Arg / ArgGroup declare relations by ADDING to the relation vectors (push / extend; clear only as the
+    documented reset): none assigns a relation vector wholesale, so an earlier declaration is never silently replaced."""
+    n_acc = 0
+    for b in fx.bodies(r"^clap_builder::builder::(arg::Arg|arg_group::ArgGroup)::"):
+        for f in REL_FIELDS:
+            for i, s_ in writes_field(b, f):
+                res.violation(rule, "relation-setter-replaces|%s|%s" % (b.q.rsplit("::", 2)[-2] + "::" + b.q.rsplit("::", 1)[1], f), "%s in %s" % (sp_str(s_["sp"]), b.q),
+                              "%s assigns `%s` wholesale: relations declared earlier on the same value (conflicts, requirements, overrides, group members) are dropped" % (b.q.rsplit("::", 1)[1], f))
+        for c in b.calls_to(r"Vec::push$", r"Extend(<[^>]*>)?>?::extend$"):
+            m = re.search(r"self\.(\w+)$", expr(b, c.args[0]))
+            if m and m.group(1) in REL_FIELDS:
+                n_acc += 1
+    res.ok(rule, "relation-setters-accumulate", "clap_builder/src/builder/{arg,arg_group}.rs", "%d push/extend sites on relation vectors, no wholesale assignment" % n_acc)
+    res.floor(rule, "accumulating relation setters in Arg/ArgGroup", n_acc, 18)
+
+
 def removal_census(fx, res, rule):
     """Presence records may only be removed for overridden arguments: every ArgMatcher::remove reachable from the parser
     removes an id taken from `arg.overrides` (forward) or from the collected list of present args whose `overrides`
@@ -226,3 +246,5 @@ def run(ctx):
     pu = [c for c in ow.calls_to(r"Vec::push$") if expr(ow, c.args[0]) == "self.overrides"]
     res.check(len(pu) == 1 and expr(ow, pu[0].args[1]) == "into_option(into_resettable(arg_id))#Some.0" and not [g for g in guard_strs(ow, pu[0].bb) if re.match(r"^[TF]:", g)], "R7.6", "overrides_with-stores", ow.where(),
               "overrides.push(given id)", "overrides_with no longer stores the id it is given unconditionally")
+
+    relation_setters_accumulate(fx, res, "R7.6")
